@@ -157,6 +157,15 @@ Theorem C15_eval_matches_doc :
 Proof. intros. apply eval_matches_doc. reflexivity. Qed.
 Print Assumptions C15_eval_matches_doc.
 
+(* before the repair the evaluator did not meet the documentation: age = 5_u64 passed `age > 30_i64` *)
+Theorem C15_eval_matches_doc_pinned_refuted :
+  let conds := [Cond LAnd MNone (CKeyValue (DString [x61; x67; x65]) CGreaterThan (DI64 30))] in
+  eval_conditions rv_pinned strict_example_db 1 0 conds = Continue true /\
+  doc_eval strict_example_db 1 0 conds = Continue false /\
+  eval_conditions rv_fixed strict_example_db 1 0 conds = Continue false.
+Proof. exact eval_matches_doc_pinned_refuted. Qed.
+Print Assumptions C15_eval_matches_doc_pinned_refuted.
+
 Example C15_eval_example :
   let conds := [Cond LAnd MNone CNode;
                 Cond LOr MNone (CWhere [Cond LAnd MNone CEdge; Cond LAnd MNot (CIds [QId (-2)])]);
@@ -204,3 +213,16 @@ Theorem C15_elements_step_doc :
       (if sc_true (doc_eval d index distance conds) then index :: acc else acc).
 Proof. intros. apply elements_loop_step_doc. reflexivity. Qed.
 Print Assumptions C15_elements_step_doc.
+
+(* "Paths": cost 1 for an element that passes (selected), 2 for one that fails, 0 (its paths are
+   no longer considered) when the search is not to continue beyond it *)
+Theorem C15_path_cost :
+  forall d conds index distance,
+    path_cost rv_fixed d conds index distance =
+    match doc_eval d index distance conds with
+    | Continue add => (if add then 1 else 2, add)
+    | Stop add => (0, add)
+    | Finish add => (0, add)
+    end /\ kind_of (doc_eval d index distance conds) <> KFinish.
+Proof. intros. apply path_cost_doc. reflexivity. Qed.
+Print Assumptions C15_path_cost.
